@@ -6,6 +6,15 @@ V = os.path.dirname(os.path.dirname(os.path.abspath(__file__)))
 # id -> (technique, level text, level note, design ref)
 PROOF_NOTE = "Lean 4.33 kernel; axioms propext/Quot.sound/Classical.choice only (audited per run); translator go/extract and the layout interpreter Model/Layout.lean validated against the real IEncode/IDecode by the correspondence run; Go runtime/stdlib modelled (DESIGN.md 2.6)."
 CLAIMED = {
+ "C06": ("Lean 4 theorems by induction on a hand model of the splitter (cut points / slices / headers) for arbitrary data, capacities and boundary rules; model tied to EncodeCMPP/SMPPContentAndSplit by correspondence on the encoded units; reported coding and end-to-end decoding checked on the implementation with independent reference codecs",
+         "Unbounded proof that the parts, headers removed, concatenate to exactly the encoded message (generic and packed path) and that fitting messages are single parts; the packed path's per-part unpacking with a known septet count and the coding selection are validated on the implementation, not yet proved (pack=bit-stream theorem pending).",
+         PROOF_NOTE + " Text codecs (x/text) outside the model.", "DESIGN.md 4/C06"),
+ "C07": ("Lean 4 theorems on the split model: part sizes, header fields, refusal beyond 255 parts, part count of the plain rule = ceil(n/per), header parser on arbitrary octets (6- and 7-octet forms, 'not concatenated' otherwise); correspondence and a (ref,total,seq) grid / all 16-bit references on the real parser",
+         "Sizes, headers, refusal and the parser clauses are proved for all inputs on the model; minimal part count is proved for the plain rule and checked against an independent greedy reference for the character-aware rules.",
+         PROOF_NOTE, "DESIGN.md 4/C07"),
+ "C14": ("Lean 4: generic theorem that every cut is a character boundary for any sound boundary rule (induction over the cut-point recursion); soundness of the escape rule for GSM 7-bit segmentations and of the plain rule for single-unit codings proved; UCS-2 and GB18030 rules tied by correspondence and by exhaustive offset sweeps around every boundary (partial)",
+         "Proof for GSM 7-bit (packed and unpacked) and single-unit codings; for UCS-2 surrogate pairs and GB18030 the boundary rules are validated by placing multi-unit characters at every offset -4..+4 of boundaries 1..4 and decoding each part on its own with independent decoders - exploration, not yet a theorem.",
+         PROOF_NOTE, "DESIGN.md 4/C14"),
  "C08": ("Lean 4: alphabet tables regenerated from the Go map literals and compared with a hand-transcribed TS 23.038 table by `decide +kernel`; encode/decode inverse, refusal and validator agreement by induction over arbitrary texts; packing length by functional induction on the block structure; pack = bit-stream specification validated exhaustively for short sequences and by correspondence (hand model of Pack/Unpack)",
          "Alphabet clauses are proved for all texts over the regenerated tables. Packing: the model of Pack/Unpack is tied to the code by correspondence on all sequences of length <= 2..3, all branch-alphabet sequences to length 5..8, all block-boundary triples for lengths 1..40 and one-bit wiring for lengths 0..64, each also compared on the Go side with an independent big-integer bit-stream packer.",
          PROOF_NOTE + " x/text transform plumbing exercised, not modelled.", "DESIGN.md 4/C08"),
